@@ -129,9 +129,7 @@ def handle (args : List String) : Option String :=
       | none => some "ERR"
       | some b =>
         if b.isWithin then some "ERR"      -- one threshold gives no interval: error exit
-        else some (match windowFile (intervalOf b r r) p.file with
-          | none => "ERR"
-          | some g => showVFile g)
+        else some (showVFile (windowFile (intervalOf b r r) p.file))
   | "e2p" :: thr :: qs :: pflag :: file => do
       let (thr, qs, pflag) := (← parseVec? thr, ← parseVec? qs, ← parseBool? pflag)
       let p ← parseFile? file
